@@ -42,6 +42,7 @@ type c02Payload struct {
 	Batch bool     `json:"batch,omitempty"`
 	GapMs int      `json:"gap_ms"`           // virtual pause before sending
 	DupOf string   `json:"dup_of,omitempty"` // deliberately reuses an id that is still in flight
+	Pre   bool     `json:"pre,omitempty"`    // sent before the initialize handshake (stdio only)
 }
 
 type c02Spec struct {
@@ -100,6 +101,97 @@ const c02AnyError = -1
 
 // c02AnyOutcome: exactly one response, result or error.
 const c02AnyOutcome = -2
+
+// c02ReqOrParams: the response must be the error -32600 or -32602 (params that are required are missing:
+// the statement names both codes for structurally invalid requests).
+const c02ReqOrParams = -3
+
+// clientCall is call() for the other direction: requests a server may send to a client.
+func (g *c02Gen) clientCall(id string) c02Msg {
+	g.n++
+	r := g.r
+	mk := func(class string, want int, method, params string) c02Msg {
+		raw := fmt.Sprintf(`{"jsonrpc":"2.0","id":%s,"method":%q`, id, method)
+		if params != "-" {
+			raw += `,"params":` + params
+		}
+		return c02Msg{Raw: raw + "}", ID: id, Class: class, Want: want}
+	}
+	sampling := func() string {
+		return fmt.Sprintf(`{"messages":[{"role":"user","content":{"type":"text","text":"n%d"}}],"maxTokens":%d}`, g.n, 100+r.Intn(6))
+	}
+	switch x := r.Intn(24); {
+	case x < 4:
+		return mk("call-ok", 0, "sampling/createMessage", sampling())
+	case x < 6:
+		return mk("call-ok", 0, "elicitation/create", r.Choose(`{"message":"m","requestedSchema":{"type":"object","properties":{"a":{"type":"string"}}}}`, `{"mode":"form","message":"m","requestedSchema":{"type":"object","properties":{}}}`))
+	case x < 8:
+		return mk("call-ok", 0, "ping", r.Choose("-", "{}", "null"))
+	case x < 10:
+		return mk("call-ok", 0, "roots/list", r.Choose("-", "{}", "null"))
+	case x < 13:
+		return mk("unknown-method", -32601, r.Choose("foo/bar", "tools/list", "", "SAMPLING/CREATEMESSAGE", "initialize", "notifications/nope"), r.Choose("-", "{}", "[1,2]"))
+	case x < 16:
+		if r.Bool() {
+			return mk("bad-params", -32602, "sampling/createMessage", r.Choose(`{"messages":5}`, `[1,2]`, `"str"`, `17`, `{"messages":[{"role":"user","content":{"type":"nope"}}],"maxTokens":1}`))
+		}
+		return mk("bad-params", -32602, "elicitation/create", r.Choose(`{"message":["m"]}`, `[1,2]`, `"str"`, `17`, `{"message":5}`))
+	case x < 19:
+		return mk("missing-params", c02ReqOrParams, r.Choose("sampling/createMessage", "elicitation/create", "elicitation/create"), r.Choose("-", "null"))
+	default:
+		return mk("id-on-notification", -32600, r.Choose("notifications/message", "notifications/progress", "notifications/cancelled", "notifications/tools/list_changed", "notifications/resources/updated", "notifications/elicitation/complete"), r.Choose("-", "{}", `{"requestId":12345}`))
+	}
+}
+
+func (g *c02Gen) clientNotif() c02Msg {
+	r := g.r
+	switch x := r.Intn(12); {
+	case x < 3:
+		return c02Msg{Raw: fmt.Sprintf(`{"jsonrpc":"2.0","method":"notifications/progress","params":{"progressToken":"t%d","progress":%d}}`, r.Intn(9), r.Intn(9)), Class: "notif"}
+	case x < 5:
+		return c02Msg{Raw: fmt.Sprintf(`{"jsonrpc":"2.0","method":"notifications/message","params":{"level":"info","data":%d}}`, r.Intn(9)), Class: "notif"}
+	case x < 7:
+		return c02Msg{Raw: fmt.Sprintf(`{"jsonrpc":"2.0","method":%q}`, r.Choose("notifications/tools/list_changed", "notifications/prompts/list_changed", "notifications/resources/list_changed")), Class: "notif"}
+	case x < 9:
+		// notifications whose params are absent or null: nothing to answer, nothing may break
+		return c02Msg{Raw: fmt.Sprintf(`{"jsonrpc":"2.0","method":%q%s}`, r.Choose("notifications/message", "notifications/progress", "notifications/resources/updated", "notifications/elicitation/complete", "notifications/cancelled"), r.Choose("", `,"params":null`)), Class: "notif"}
+	case x < 10:
+		return c02Msg{Raw: `{"jsonrpc":"2.0","method":"notifications/cancelled","params":{"requestId":987654}}`, Class: "notif"}
+	case x < 11:
+		return c02Msg{Raw: `{"jsonrpc":"2.0","method":"notifications/unknown-thing","params":{}}`, Class: "unknown-notif"}
+	default:
+		return c02Msg{Raw: fmt.Sprintf(`{"jsonrpc":"2.0","method":%q,"params":{}}`, r.Choose("roots/list", "ping", "foo/bar")), Class: "call-without-id"}
+	}
+}
+
+// genC02Client: the raw peer plays the server of a real Client (every handler installed) over ndjson pipes.
+func genC02Client(r *vh.Rand) c02Spec {
+	s := c02Spec{Transport: "stdio-client"}
+	s.Version = r.Choose("2025-03-26", "2024-11-05", "2025-06-18", "2025-11-25")
+	batchOK := s.Version <= "2025-03-26"
+	g := &c02Gen{r: r, used: map[string]bool{`"init"`: true, `"final-ping"`: true}}
+	n := r.Range(2, 10)
+	for i := 0; i < n; i++ {
+		p := c02Payload{GapMs: r.Intn(4)}
+		if batchOK && r.Chance(2, 5) {
+			p.Batch = true
+			k := r.Range(1, 5)
+			for j := 0; j < k; j++ {
+				if r.Chance(1, 3) {
+					p.Msgs = append(p.Msgs, g.clientNotif())
+				} else {
+					p.Msgs = append(p.Msgs, g.clientCall(g.freshID()))
+				}
+			}
+		} else if r.Chance(1, 4) {
+			p.Msgs = []c02Msg{g.clientNotif()}
+		} else {
+			p.Msgs = []c02Msg{g.clientCall(g.freshID())}
+		}
+		s.Payloads = append(s.Payloads, p)
+	}
+	return s
+}
 
 func (g *c02Gen) call(id string) c02Msg {
 	g.n++
@@ -223,6 +315,27 @@ func genC02(r *vh.Rand, idx int) c02Spec {
 			c02Payload{GapMs: 60, Msgs: []c02Msg{ping(a, "call-ok")}},
 			c02Payload{GapMs: 1, Msgs: []c02Msg{ping(b, "call-ok")}})
 	}
+	// requests that arrive before the handshake: a broken initialize must be rejected with the standard
+	// code and must not spoil the real one that follows
+	if s.Transport == "stdio" && r.Chance(1, 5) {
+		var pre []c02Payload
+		for k := r.Range(1, 3); k > 0; k-- {
+			id := g.freshID()
+			var m c02Msg
+			switch r.Intn(4) {
+			case 0:
+				m = c02Msg{Raw: fmt.Sprintf(`{"jsonrpc":"2.0","id":%s,"method":"initialize","params":%s}`, id, r.Choose(`[1,2]`, `"str"`, `{"protocolVersion":5}`, `{"capabilities":[]}`, `17`)), ID: id, Class: "bad-params", Want: -32602}
+			case 1:
+				m = c02Msg{Raw: fmt.Sprintf(`{"jsonrpc":"2.0","id":%s,"method":"initialize"%s}`, id, r.Choose("", `,"params":null`)), ID: id, Class: "missing-params", Want: c02ReqOrParams}
+			case 2:
+				m = c02Msg{Raw: fmt.Sprintf(`{"jsonrpc":"2.0","id":%s,"method":"ping"}`, id), ID: id, Class: "call-ok"}
+			default:
+				m = c02Msg{Raw: fmt.Sprintf(`{"jsonrpc":"2.0","id":%s,"method":"foo/bar"}`, id), ID: id, Class: "unknown-method", Want: c02AnyError} // rejected for the lifecycle's sake (C06 decides the code)
+			}
+			pre = append(pre, c02Payload{Pre: true, Msgs: []c02Msg{m}})
+		}
+		s.Payloads = append(pre, s.Payloads...)
+	}
 	return s
 }
 
@@ -238,7 +351,12 @@ func TestVerifC02(t *testing.T) {
 		Assumptions:   []string{"envelopes are well-formed JSON-RPC 2.0", "an HTTP POST answered 4xx rejects all of its members (pre-validation)", "batch responses need not be grouped into one array"},
 	}
 	vh.Run(t, cfg, func(c *vh.Case) {
-		spec := genC02(c.R, c.Index)
+		var spec c02Spec
+		if c.Index%6 == 5 {
+			spec = genC02Client(c.R)
+		} else {
+			spec = genC02(c.R, c.Index)
+		}
 		c.SetSpec(spec)
 		var resps []c02Resp
 		var statuses map[int]int
@@ -388,6 +506,81 @@ func runC02(c *vh.Case, spec c02Spec) ([]c02Resp, map[int]int) {
 	}
 	var wg sync.WaitGroup
 	switch spec.Transport {
+	case "stdio-client":
+		client := mcp.NewClient(&mcp.Implementation{Name: "verif", Version: "1"}, &mcp.ClientOptions{
+			CreateMessageHandler: func(ctx context.Context, req *mcp.CreateMessageRequest) (*mcp.CreateMessageResult, error) {
+				if d := req.Params.MaxTokens - 100; d > 0 {
+					select {
+					case <-time.After(ms(int(d))):
+					case <-ctx.Done():
+					}
+				}
+				return &mcp.CreateMessageResult{Model: "m", Role: "assistant", Content: &mcp.TextContent{Text: "ok"}}, nil
+			},
+			ElicitationHandler: func(ctx context.Context, req *mcp.ElicitRequest) (*mcp.ElicitResult, error) {
+				return &mcp.ElicitResult{Action: "decline"}, nil
+			},
+			LoggingMessageHandler:       func(context.Context, *mcp.LoggingMessageRequest) {},
+			ProgressNotificationHandler: func(context.Context, *mcp.ProgressNotificationClientRequest) {},
+			ToolListChangedHandler:      func(context.Context, *mcp.ToolListChangedRequest) {},
+			PromptListChangedHandler:    func(context.Context, *mcp.PromptListChangedRequest) {},
+			ResourceListChangedHandler:  func(context.Context, *mcp.ResourceListChangedRequest) {},
+			ResourceUpdatedHandler:      func(context.Context, *mcp.ResourceUpdatedNotificationRequest) {},
+			ElicitationCompleteHandler:  func(context.Context, *mcp.ElicitationCompleteNotificationRequest) {},
+		})
+		client.AddRoots(&mcp.Root{URI: "file:///r", Name: "r"})
+		sr, cw := io.Pipe() // client -> harness
+		cr, sw := io.Pipe() // harness -> client
+		send := func(s string) bool {
+			_, err := sw.Write([]byte(s + "\n"))
+			return err == nil
+		}
+		initSeen := make(chan struct{})
+		readerDone := make(chan struct{})
+		go func() {
+			defer close(readerDone)
+			sc := bufio.NewScanner(sr)
+			sc.Buffer(make([]byte, 1<<20), 1<<20)
+			for sc.Scan() {
+				line := append([]byte(nil), sc.Bytes()...)
+				var m struct {
+					ID     json.RawMessage `json:"id"`
+					Method string          `json:"method"`
+				}
+				if json.Unmarshal(line, &m) == nil && m.Method == "initialize" {
+					go send(fmt.Sprintf(`{"jsonrpc":"2.0","id":%s,"result":{"protocolVersion":%q,"capabilities":{},"serverInfo":{"name":"raw","version":"0"}}}`, m.ID, spec.Version))
+					continue
+				}
+				if m.Method == "notifications/initialized" {
+					close(initSeen)
+				}
+				col.absorb(line, -1)
+			}
+		}()
+		cs, err := client.Connect(ctx, &mcp.IOTransport{Reader: cr, Writer: &chunkWriter{w: cw, n: 1 + c.Index%13}}, &mcp.ClientSessionOptions{ProtocolVersion: spec.Version})
+		if err != nil {
+			c.Inconclusive("client connect: %v", err)
+			sw.Close()
+			cw.Close()
+			return nil, nil
+		}
+		<-initSeen
+		time.Sleep(ms(1))
+		for i, p := range spec.Payloads {
+			time.Sleep(ms(p.GapMs))
+			if !send(encode(p)) {
+				c.Log.Add("send-failed", "payload", i)
+			}
+			c.Log.Add("sent", "payload", i)
+		}
+		time.Sleep(ms(100))
+		send(finalPing)
+		time.Sleep(ms(50))
+		sw.Close()
+		cs.Wait()
+		cw.Close()
+		<-readerDone
+		c.Log.Add("session-ended")
 	case "stdio":
 		cr, sw := io.Pipe() // server -> harness
 		sr, cw := io.Pipe() // harness -> server
@@ -412,10 +605,19 @@ func runC02(c *vh.Case, spec c02Spec) ([]c02Resp, map[int]int) {
 			_, err := cw.Write([]byte(s + "\n"))
 			return err == nil
 		}
+		for i, p := range spec.Payloads {
+			if p.Pre {
+				send(encode(p))
+				c.Log.Add("sent", "payload", i, "pre", true)
+			}
+		}
 		send(initMsg)
 		send(initdMsg)
 		time.Sleep(ms(1))
 		for i, p := range spec.Payloads {
+			if p.Pre {
+				continue
+			}
 			time.Sleep(ms(p.GapMs))
 			if !send(encode(p)) {
 				c.Log.Add("send-failed", "payload", i)
@@ -675,7 +877,27 @@ func decideC02(c *vh.Case, spec c02Spec, resps []c02Resp, stat map[int]int) {
 			wc = append(wc, w.code)
 		}
 		for _, r := range rs {
+			if !r.OK && r.Code == 0 {
+				gc = append(gc, 1) // an error object whose code is 0: an error, but never the expected success
+				continue
+			}
 			gc = append(gc, r.Code)
+		}
+		// "-32600 or -32602": bind to whichever of the two is among the responses
+		{
+			left := append([]int(nil), gc...)
+			for i, w := range wc {
+				if w != c02ReqOrParams {
+					continue
+				}
+				for _, cand := range []int{-32600, -32602} {
+					if k := slices.Index(left, cand); k >= 0 {
+						left = slices.Delete(left, k, k+1)
+						wc[i] = cand
+						break
+					}
+				}
+			}
 		}
 		// sentinels: "any error" needs a non-zero code, "any outcome" any code, among the responses that
 		// no exact expectation claims
